@@ -22,7 +22,7 @@ PROPS['C17'] = dict(
              thorough=dict(cases=150000, nontrivial=40000)),
     rule='case = (scalar, n, k, constraints m / rotated / skip-lowest, spectrum class, basis kind, B kind and kappa decades, content seed, position of the lowest eigenvalue, scales of A and B, preconditioner, start-block kind, '
          'tol exponent, maxit kind, optional second compute with its own tol / maxit). Non-trivial = Success reached after at least two Rayleigh-Ritz iterations (or Success only on the second compute); distinct = 64-bit hash of the draw log.',
-    tolerances='X\'BX - I: 64 n eps kappa(B) (1+its); residuals() - (A X - B X diag(ev)): 64 n eps (||A||_F + max|ev| ||B||_F) ||X||_F (1+its); column norms: < tol*n (reported) and <= tol*n + that rounding term (recomputed); '
+    tolerances='X\'BX - I: min(1/4, 64 n eps kappa(B) (1+its)); residuals() - (A X - B X diag(ev)): 64 n eps (||A||_F + max|ev| ||B||_F) max(||X||_F, sqrt(k/lambda_min(B))) (1+its); column norms: < tol*n (reported) and <= tol*n + that rounding term (recomputed); '
                'eigenvalues: tol*n/sqrt(lambda_min(B)) + 64 n eps (||A||_F + max|ev| ||B||_F)/lambda_min(B) (1+its); its = min(n, maxit)',
     assumptions=['Eigen GeneralizedSelfAdjointEigenSolver / SelfAdjointEigenSolver / JacobiSVD in long double as the reference', 'guarded friend hook (Spectra::verif::Access) reads the private iterate X; never used to modify the solver'],
 )
